@@ -206,6 +206,20 @@ func crashOracle(s *Spec, probes [][]byte, stats *crashStats, crashOps func(w *W
 							class = "fast_index_entries_without_label_update"
 						}
 						vv.Facts = map[string]any{"op": opNames[op.Kind], "cut": c, "writes": len(log), "symptom": ferr.Oracle, "class": class}
+						// An interrupted rollback is repaired by repeating it. The image may not open with Load() (known
+						// finding), but LoadVersionForOverwriting(target) does not need that: on a new instance it must
+						// succeed and reach the crash-free result.
+						if op.Kind == OpLVFO && rc == cfgAfter {
+							if rv := retryRollbackDirect(img, cfgBefore, op, postM, probes, stats); rv != nil {
+								rv.Detail = fmt.Sprintf("%s interrupted after %d of %d physical writes: %s", op, c, len(log), rv.Detail)
+								rv.Facts = map[string]any{"op": opNames[op.Kind], "cut": c, "writes": len(log), "symptom": "retry", "class": "repeated_rollback_does_not_reach_the_crash_free_result",
+									"hole_in_root_records_above_target": rootRecordHole(img, op.Ver, preM.Latest)}
+								if stepOver(s, hist, rv) {
+									continue
+								}
+								return rv
+							}
+						}
 						if stepOver(s, hist, vv) {
 							continue
 						}
@@ -308,6 +322,55 @@ func classifyPruneImage(img *vstore.Store) string {
 		}
 	}
 	return "other"
+}
+
+// rootRecordHole: the image holds the root record (v,1) of some version above the target while the root record of a
+// version between the target and v is gone (the range of versions has a hole).
+func rootRecordHole(img *vstore.Store, target, latest int64) bool {
+	has := func(v int64) bool {
+		k := make([]byte, 13)
+		k[0] = 's'
+		for i := 0; i < 8; i++ {
+			k[1+i] = byte(uint64(v) >> (56 - 8*uint(i)))
+		}
+		k[12] = 1
+		ok, _ := img.Clone().Has(k)
+		return ok
+	}
+	missing := false
+	for v := target + 1; v <= latest; v++ {
+		if !has(v) {
+			missing = true
+		} else if missing {
+			return true
+		}
+	}
+	return false
+}
+
+// retryRollbackDirect repeats LoadVersionForOverwriting(target) on a new instance opened on the image, without a
+// Load() before it; it must succeed and the instance (and a restart) must show the crash-free result.
+func retryRollbackDirect(img *vstore.Store, cfg Cfg, op Op, postM *Model, probes [][]byte, stats *crashStats) *Violation {
+	atomic.AddInt64(&stats.retries, 1)
+	st := img.Clone()
+	m := postM.Clone()
+	fw := &World{Cfg: cfg, Base: st, DB: st, VS: st, M: m, exps: map[int64][]*iavl.Exporter{}}
+	v := safely("retry", func() *Violation {
+		fw.Tree = fw.open(cfg)
+		if err := fw.Tree.LoadVersionForOverwriting(op.Ver); err != nil {
+			return viol("retry", "repeating %s on a new instance failed: %v", op, err)
+		}
+		for _, o := range []Oracle{oracleReads(probes), oracleHashes(), oracleFast(probes), oracleFresh(oracleReads(probes), oracleHashes())} {
+			if vv := o.Fn(fw); vv != nil {
+				return viol("retry", "state after repeating the rollback: %s", vv.Error())
+			}
+		}
+		return nil
+	})
+	if fw.Tree != nil {
+		func() { defer func() { _ = recover() }(); _ = fw.Tree.Close() }()
+	}
+	return v
 }
 
 func retryOp(img *vstore.Store, cfg Cfg, cfg0 Cfg, op Op, hist []Op, match string, cands []*Model, names []string, postM *Model, probes [][]byte, stats *crashStats) *Violation {
@@ -514,6 +577,20 @@ func init() {
 			return false
 		}
 		return f["op"] == "LoadVersionForOverwriting" && f["class"] == "partially_deleted_versions_above_target" && f["symptom"] != "retry"
+	}
+}
+
+func init() {
+	// Repeating an interrupted multi-batch rollback on a new instance is refused with "version does not exist" when
+	// the interruption left a hole in the root records above the target (the first-version search assumes a
+	// contiguous range). Only that refusal is known; a repeated rollback that is accepted and leaves a wrong state is not.
+	matchers["c05_rollback_retry_refused_after_hole"] = func(c *MatchCtx) bool {
+		f := c.V.Facts
+		if f == nil || c.V.Oracle != "retry" {
+			return false
+		}
+		return f["op"] == "LoadVersionForOverwriting" && f["class"] == "repeated_rollback_does_not_reach_the_crash_free_result" &&
+			f["hole_in_root_records_above_target"] == true && strings.Contains(c.V.Detail, "on a new instance failed: version does not exist")
 	}
 }
 
